@@ -46,6 +46,7 @@ func main() {
 	if *deadline > 0 {
 		ctx.Deadline = time.Now().Add(*deadline)
 	}
+	ctx.InitShard()
 	c.Run(ctx)
 	ctx.Finish(*verif)
 }
